@@ -167,7 +167,7 @@ func Soup(t *rapid.T) string {
 			if oneLine {
 				b.WriteString(soupPick(t, "csp", []string{" ", "", "  "}))
 			} else {
-				b.WriteString(soupPick(t, "cnl", []string{"\n", "\n", "\r\n", "", " ", "\r", "\r\r\n", "  "}))
+				b.WriteString(soupPick(t, "cnl", []string{"\n", "\n", "\r\n", "", " ", "\r", "\r\r\n", "  ", "\n\r", "\n\t\r"}))
 			}
 			if rapid.IntRange(0, 14).Draw(t, "rbrace") != 0 {
 				b.WriteString("}")
